@@ -13,6 +13,7 @@ import (
 
 	"github.com/internetarchive/Zeno/internal/pkg/controler"
 	"github.com/internetarchive/Zeno/internal/verif/vc"
+	"github.com/internetarchive/Zeno/pkg/models"
 )
 
 // C04 — a stopped or killed job resumes all unfinished seeds; finished implies captured.
@@ -47,6 +48,25 @@ func c04Child(scPath string) int {
 	pr.perturb, pr.perturbSeed = 1, vc.DeriveSeed(sc.Seed, "C04", "perturb", sc.Index, sc.Run)
 	pr.triggers = sc.Triggers
 	pr.installHooks(true)
+	// "finished implies captured" also in-line: a seed that is being acknowledged to the queue must not
+	// have nodes that still await a fetch or post-processing (written through: the process may be killed)
+	inl, _ := os.OpenFile(filepath.Join(dir, fmt.Sprintf("inline-%d.log", sc.Run)), os.O_CREATE|os.O_WRONLY|os.O_APPEND, 0o644)
+	pr.itemHooks["fin.notify"] = func(item any, seq int64) {
+		seed, ok := item.(*models.Item)
+		if !ok {
+			return
+		}
+		var pending []string
+		seed.Traverse(func(it *models.Item) {
+			if st := it.GetStatus(); st == models.ItemFresh || st == models.ItemPreProcessed || st == models.ItemArchived {
+				pending = append(pending, fmt.Sprintf("%s %s", it.GetURL().Raw, st))
+			}
+		})
+		if len(pending) > 0 && inl != nil {
+			b, _ := json.Marshal(map[string]any{"seed": seed.GetID(), "url": seed.GetURL().Raw, "pending": pending, "stop_requested": pr.stopCalled.Load() != 0})
+			inl.Write(append(b, '\n'))
+		}
+	}
 	controler.Start()
 	os.WriteFile(filepath.Join(dir, fmt.Sprintf("started-%d", sc.Run)), []byte("1"), 0o644)
 	v := pr.waitQuiescent(6500*time.Millisecond, 12*time.Second, 120*time.Second)
@@ -136,6 +156,10 @@ func c04Plans(r *vc.Run) []c04Plan {
 		}
 		plans = append(plans, c04Plan{Kind: "graceful", Triggers: []trigger{{"arch.do", 6, "stop"}}, Seencheck: false})
 		plans = append(plans, c04Plan{Kind: "graceful", Triggers: []trigger{{"fin.notified", 3, "stop"}}, Seencheck: true})
+		plans = append(plans, c04Plan{Kind: "graceful", Triggers: []trigger{{"arch.do", 3, "stop"}}, Seencheck: false})
+		plans = append(plans, c04Plan{Kind: "graceful", Triggers: []trigger{{"arch.resp", 9, "stop"}}, Seencheck: false})
+		plans = append(plans, c04Plan{Kind: "graceful", Triggers: []trigger{{"post.recv", 4, "stop"}}, Seencheck: false})
+		plans = append(plans, c04Plan{Kind: "graceful", Triggers: []trigger{{"arch.resp", 4, "stop"}}, Seencheck: true})
 		return plans
 	}
 	for _, sck := range []bool{false, true} {
@@ -229,6 +253,15 @@ func c04(r *vc.Run) int {
 		ix1.scan(filepath.Join(dir, "jobs", "j", "warcs"))
 		for _, p := range ix1.Problems {
 			r.Violation("warc-unreadable-after-death", fmt.Sprintf("%s: %s @%d: %s", label, p.File, p.Offset, p.What), map[string]any{"plan": plan})
+		}
+		for _, f := range []string{"inline-1.log"} {
+			if b, err := os.ReadFile(filepath.Join(dir, f)); err == nil {
+				for _, l := range strings.Split(strings.TrimSpace(string(b)), "\n") {
+					if l != "" {
+						r.Violation("finished-with-pending-work", fmt.Sprintf("%s: a seed was acknowledged to the queue as finished while nodes of its tree still awaited work: %s", label, truncate(l, 600)), map[string]any{"plan": plan})
+					}
+				}
+			}
 		}
 		// ---- run 2 ----
 		sc2 := c04Scenario{Seed: r.Seed, Index: i, Cfg: cfg, Run: 2}
